@@ -717,7 +717,11 @@ class World(object):
         for sim in self.sims.values():
             for port_triggers in sim.triggers.values():
                 for dest_sim, delay in port_triggers:
-                    dest_sim.triggering_ancestors[sim] = delay
+                    # Several connections may lead from sim to dest_sim;
+                    # keep the shortest delay.
+                    shorter = update_min(dest_sim.triggering_ancestors.get(sim), delay)
+                    if shorter is not None:
+                        dest_sim.triggering_ancestors[sim] = shorter
                     dirty.add(dest_sim)
         while dirty:
             sim = dirty.pop()
